@@ -1,7 +1,6 @@
 /-
-Skip targets without trivially-true selections on their unary spine: `_finish_apply` keeps them so,
-and a Selection applied to one never exposes a chain underneath (a merged predicate is trivially true
-only when both parts are).
+When `_finish_apply` can hand back a chain: never for a Calculation or Selection that returns a new
+relation (a merged predicate is trivially true only when both parts are), never on top of a Select.
 -/
 import DafRel.Model.Apply
 import DafRel.Spec.Select
@@ -11,52 +10,17 @@ namespace DafRel
 
 /-! ### No trivially-true selections on the unary spine of a skip target -/
 
-theorem construct_noTriv (op : UOp) (t : Rel) (res : Res) (hn : op.noopOn t.columns = false)
-    (ht : t.NoTrivSel) (h : op.construct t = .ok res) : (res.get t).NoTrivSel := by
-  unfold UOp.construct at h
-  split at h
-  · cases h
-  · injection h with h; subst h
-    refine ⟨?_, ht⟩
-    intro p hp
-    subst hp
-    simpa [UOp.noopOn] using hn
-
-theorem finishApply_noTriv : (t : Rel) → (op : UOp) → (res : Res) → t.NoTrivSel → op.finishApply t = .ok res →
-    (res.get t).NoTrivSel
-  | .unary up t' c, op, res, ht, h => by
-    unfold UOp.finishApply at h
-    by_cases hn : op.noopOn c = true
-    · simp only [hn, if_true] at h
-      injection h with h; subst h; exact ht
-    · simp only [hn, Bool.false_eq_true, if_false] at h
-      split at h
-      · cases h
-      · injection h with h; subst h; exact ht
-      · split at h
-        · cases h
-        · rename_i r hr
-          injection h with h; subst h
-          exact finishApply_noTriv t' _ r ht.2 hr
-      · exact construct_noTriv op _ res (by simpa [Rel.columns] using hn) ht h
-  | .leaf .., op, res, ht, h | .binary .., op, res, ht, h | .mat .., op, res, ht, h
-  | .transfer .., op, res, ht, h | .select .., op, res, ht, h => by
-    unfold UOp.finishApply at h
-    split at h
-    · injection h with h; subst h; exact ht
-    · rename_i hn
-      exact construct_noTriv op _ res (by simpa using hn) ht h
-
 theorem construct_not_chain (op : UOp) (t k : Rel) (h : op.construct t = .ok (.new k)) : isChain k = false := by
   unfold UOp.construct at h
   split at h
   · cases h
   · injection h with h; injection h with h; subst h; rfl
 
-/-- A Selection applied to a skip target without trivially-true selections never exposes a chain. -/
-theorem sel_finish_not_chain : (t : Rel) → (p : Pred) → (k : Rel) → t.NoTrivSel →
+/-- A Selection applied to a skip target never exposes a chain underneath: a merged predicate is
+trivially true only when both parts are, and then the new Selection is dropped before merging. -/
+theorem sel_finish_not_chain : (t : Rel) → (p : Pred) → (k : Rel) →
     (UOp.sel p).finishApply t = .ok (.new k) → isChain k = false
-  | .unary up t' c, p, k, ht, h => by
+  | .unary up t' c, p, k, h => by
     unfold UOp.finishApply at h
     split at h
     · cases h
@@ -72,7 +36,7 @@ theorem sel_finish_not_chain : (t : Rel) → (p : Pred) → (k : Rel) → t.NoTr
             simp only [hr] at h
             injection h with h; injection h with h; subst h
             cases r with
-            | new k' => exact sel_finish_not_chain t' s k' ht.2 hr
+            | new k' => exact sel_finish_not_chain t' s k' hr
             | same =>
               simp only [Res.get]
               -- `t'` itself came back: either it is not a chain, or the merged predicate is trivially true
@@ -84,7 +48,8 @@ theorem sel_finish_not_chain : (t : Rel) → (p : Pred) → (k : Rel) → t.NoTr
                   simp only [UOp.finishApply, UOp.noopOn] at hr
                   by_cases htriv : (s.asTrivial == some true) = true
                   · have := mkSel_and_trivial q p s hs (by simpa using htriv)
-                    exact ht.1 q rfl this.1
+                    rename_i hnoop
+                    exact hnoop (by simp [UOp.noopOn, this.2])
                   · simp only [htriv, Bool.false_eq_true, if_false] at hr
                     unfold UOp.construct at hr
                     split at hr <;> cases hr
@@ -94,8 +59,8 @@ theorem sel_finish_not_chain : (t : Rel) → (p : Pred) → (k : Rel) → t.NoTr
       | _ =>
         simp only [UOp.simplify] at h
         exact construct_not_chain _ _ _ h
-  | .leaf .., p, k, _, h | .binary .., p, k, _, h | .mat .., p, k, _, h
-  | .transfer .., p, k, _, h | .select .., p, k, _, h => by
+  | .leaf .., p, k, h | .binary .., p, k, h | .mat .., p, k, h
+  | .transfer .., p, k, h | .select .., p, k, h => by
     unfold UOp.finishApply at h
     split at h
     · cases h
@@ -113,9 +78,6 @@ theorem finishApply_select_not_chain (op : UOp) (S : Rel) (hs : S.isSelect = tru
       | same => rfl
       | new k => exact construct_not_chain _ _ _ h
   | _ => simp [Rel.isSelect] at hs
-
-theorem noTrivSel_of_select (S : Rel) (hs : S.isSelect = true) : S.NoTrivSel := by
-  cases S <;> simp_all [Rel.isSelect, Rel.NoTrivSel]
 
 theorem not_chain_of_select (S : Rel) (hs : S.isSelect = true) : isChain S = false := by
   cases S <;> simp_all [Rel.isSelect, isChain]
